@@ -286,3 +286,8 @@ Fixpoint denoms_distinct (cs : list go_coin) : bool :=
   end.
 Definition Coins_IsValid (cs : list go_coin) : bool :=
   forallb (fun c => (0 <? snd c) && (0 <=? fst c)) cs && denoms_distinct cs.
+
+(* ---- gRPC status codes (google.golang.org/grpc/codes), used as error classes by the query servers ---- *)
+Definition grpc_codes_InvalidArgument : Z := 3.
+Definition grpc_codes_NotFound : Z := 5.
+Definition grpc_codes_Internal : Z := 13.
